@@ -9321,10 +9321,16 @@ class SVG(Group):
                     if width is None:
                         # If a dim was not provided but a viewbox was, use the viewbox dim as physical size, else 1000
                         width = (
-                            s.viewbox.width if s.viewbox is not None else 1000
-                        )  # 1000 default no information.
+                            s.viewbox.width
+                            if s.viewbox is not None and s.viewbox.width is not None
+                            else 1000
+                        )  # 1000 default no information (also for a malformed viewBox).
                     if height is None:
-                        height = s.viewbox.height if s.viewbox is not None else 1000
+                        height = (
+                            s.viewbox.height
+                            if s.viewbox is not None and s.viewbox.height is not None
+                            else 1000
+                        )
 
                     s.render(ppi=ppi, width=width, height=height, viewbox=s.viewbox)
                     width, height = s.width, s.height
